@@ -74,10 +74,16 @@ class StoreProg(Prog):
         store = rec.RecStore(data, chunks=grid, allow_fancy=True, allow_step=True)
         self.stores.append(store)
         chunks = rand_chunks(self.rng, shape)
-        how = self.rng.choice(["from_array"] * 3 + ["asarray", "asanyarray", "implicit"])
+        how = self.rng.choice(["from_array"] * 3 + ["asarray", "asanyarray", "implicit", "asanyarray_dtype", "setitem_value"])
         if how == "from_array":
             x = da.from_array(store, chunks=chunks)
-        elif how == "implicit":
+        elif how == "asanyarray_dtype":
+            x = da.asanyarray(store, dtype=data.dtype)
+        elif how == "setitem_value" and shape:
+            # the source is the VALUE of an assignment (coerced with the target's dtype)
+            x = da.zeros(shape, chunks=chunks, dtype=data.dtype)
+            x[...] = store
+        elif how == "implicit" or how == "setitem_value":
             # the source enters through coercion by an operator
             x = da.zeros(shape, chunks=chunks, dtype=data.dtype) + store
         else:
@@ -97,7 +103,7 @@ def build_program(rng, ctx):
             if r < 0.2 and g.vars:
                 # recording kernels
                 v = rng.choice([u for u in g.vars if u.np.dtype.kind in "fi"] or g.vars)
-                kind = rng.choice(["plain", "plain_dtype", "block_info_dtype", "block_info", "blockwise_dtype_only", "zero_d_expand", "overlap_declared", "overlap_declared"])
+                kind = rng.choice(["plain", "plain_dtype", "block_info_dtype", "block_info", "blockwise_dtype_only", "zero_d_expand", "overlap_declared", "overlap_declared", "sample_meta"])
                 try:
                     if kind in ("blockwise_dtype_only", "zero_d_expand"):
                         src, e = v.da, v.np
@@ -119,6 +125,16 @@ def build_program(rng, ctx):
                         y = da.blockwise(rec.rec_plain_fn, ind, src, ind, dtype=float, tag="dtype_only")
                         g._add("rec_blockwise", [vid], {"kind": kind}, e + 1.0, y, 0, v.depth + 2)
                         ctx.count(f"kernels:{kind}")
+                        continue
+                    if kind == "sample_meta":
+                        # the user passes a NON-EMPTY sample array as meta=; a later op infers its meta by calling a kernel
+                        sample = np.ones((2,) * v.ndim, dtype=v.np.dtype)
+                        y = da.map_blocks(rec.rec_declared_fn, v.da, dtype=v.np.dtype, meta=sample)
+                        mid = g._add("rec_map_blocks", [v.id], {"kind": kind}, v.np + 1, y, 0, v.depth + 1)
+                        ind = tuple(range(y.ndim))
+                        z = da.blockwise(rec.rec_plain_fn, ind, y, ind, dtype=float, tag="dtype_only")
+                        g._add("rec_blockwise", [mid.id], {"kind": kind}, v.np + 2.0, z, 0, v.depth + 2)
+                        ctx.count("kernels:sample_meta")
                         continue
                     if kind == "overlap_declared":
                         if v.ndim < 1 or min(v.np.shape) < 1:
